@@ -109,6 +109,14 @@ def case_strategy(draw):
             head = [[["add_ball", 1, False], 5.0], [["lock_shot", 50], 3.1], [["escape", "bd_lock", 1], 1.0],
                     [["upper_exit"], draw(st.sampled_from(GAPS))]]
         steps = head + steps
+    elif topo["lock"] and topo["lock"]["kind"] == "entrance" and topo["lock"].get("lanes") == 2 and n >= 2 and \
+            draw(st.booleans()):
+        # scenario: two balls reach a two-lane lock almost together (each inside the other lane's ignore window); the lock
+        # has room for a third, so a hit counted twice shows in its count
+        topo["lock"]["cap"] = 3
+        claims = [True, True] + claims
+        head = [[["add_ball", 1, False], 6.0], [["add_ball", 1, False], 6.0], [["lock_pair"], draw(st.sampled_from([2.0, 5.0]))]]
+        steps = head + steps
     elif topo["lock"] and topo["lock"]["kind"] == "entrance" and n > topo["lock"]["cap"] and draw(st.integers(0, 2)) == 0:
         # scenario: the entrance-counted lock is filled to capacity (the balls are held: claims), then another ball knocks
         # on its entrance switch
